@@ -526,7 +526,7 @@ def c08_settlement(tr, out, snaps_by_market, case):
             # even money against the struck line; orientation is the code's own, the magnitude and the
             # opposite-sides relation are what the property states
             if abs(abs(s["profit"]) - round(matched, 2)) > 0.011:
-                out.v("line-not-even-money", tags, order=o, sample=s)
+                out.v("line-not-even-money", dict(tags, struck_at_zero=any(f[1] == 0 for f in frags)), order=o, sample=s)
             twins[(m, tuple(s["sel"]), repr(sorted((f[1], f[2]) for f in frags)), "LINE", res)].append((s["side"], s["profit"], o))
             continue
         exp = sum(settle_fragment(s["side"], f[1], f[2], rs, mt, k, d) for f in frags)
